@@ -3829,3 +3829,33 @@ mod tests {
         println!("✓ clear_vertex_keys() correctly clears and allows rebuilding of vertex keys");
     }
 }
+
+// ---- verif hook H2 (cfg delaunay_verif): raw access for fault injection; not compiled otherwise ----
+#[cfg(delaunay_verif)]
+impl<T, U, V, const D: usize> Cell<T, U, V, D>
+where
+    U: DataType,
+    V: DataType,
+{
+    /// verif hook: raw vertex-slot buffer.
+    pub fn verif_vertices_mut(&mut self) -> &mut CellVertexBuffer {
+        &mut self.vertices
+    }
+
+    /// verif hook: raw neighbor buffer.
+    pub fn verif_neighbors_mut(&mut self) -> &mut Option<NeighborBuffer<Option<CellKey>>> {
+        &mut self.neighbors
+    }
+
+    /// verif hook: unchecked constructor with a fresh UUID.
+    pub fn verif_new_raw(vertices: Vec<VertexKey>, data: Option<V>) -> Self {
+        Self {
+            vertices: vertices.into_iter().collect(),
+            uuid: make_uuid(),
+            neighbors: None,
+            data,
+            periodic_vertex_offsets: None,
+            _phantom: PhantomData,
+        }
+    }
+}
